@@ -636,9 +636,9 @@ func init() {
 	for _, id := range []string{"C13", "C14", "C15"} {
 		prop := id
 		rule := map[string]string{
-			"C13": "random literal-rich trees (strings with spaces, parentheses, brackets, semicolons, backslashes, line breaks, non-ASCII; int and string lists; constants; dotted and non-ASCII identifiers) compiled under option subsets and event modes; Go's Dump is compared with the model's `dump` of the exported program, recompiled unoptimised under the same names, evaluated on 3 bindings against the original, and dumped again (must reproduce the text); operand-less calls under two-operand comparisons, if-chains, nested groups flattening past the operand limit; non-trivial = Dump starts with a parenthesis; distinct = distinct (source, subset)",
-			"C14": "random trees rendered to source, re-laid out twice with random Unicode white space, line breaks and `;` comments between the same tokens (a separator only where two tokens would fuse), formatted once and twice by IndentByParentheses (also with directive and ordinary comments, comments with multi-byte letters, multi-line literals with white space before the line break, infix renderings with string lists); Go's token sequences and parsed trees must coincide; Go's lexer and formatter are compared with the model's `lex` and `indent_by_parens` on every string; non-trivial = every source; distinct = distinct strings",
-			"C15": "random trees over binary operators of every precedence level, unary !, named n-ary calls, if and bracket lists, rendered to infix with minimal parentheses (by precedence and left associativity) plus random redundant parentheses and spacing, a name that is both a constant of the configuration and a registered variable; Go's infix parse must equal Go's prefix parse of the prefix form; both are compared with the model's parsers; non-trivial = every tree; distinct = distinct renderings",
+			"C13": "random literal-rich trees (strings with spaces, parentheses, brackets, semicolons, backslashes, line breaks, non-ASCII; int and string lists; constants; dotted and non-ASCII identifiers) compiled under option subsets and event modes; Go's Dump is compared with the model's `dump` of the exported program, recompiled unoptimised under the same names, evaluated on 3 bindings against the original, and dumped again (must reproduce the text); operand-less calls under two-operand comparisons, if-chains, nested groups flattening past the operand limit; hand-written sources with other quote characters and escapes (whatever the lexer accepts must survive the round trip); non-trivial = Dump starts with a parenthesis; distinct = distinct (source, subset)",
+			"C14": "random trees rendered to source, re-laid out twice with random Unicode white space, line breaks and `;` comments between the same tokens (a separator only where two tokens would fuse), formatted once and twice by IndentByParentheses (also with directive and ordinary comments, comments with multi-byte letters, multi-line literals with white space before the line break, infix renderings with string lists; white space of every kind in front of a leading directive); Go's token sequences and parsed trees must coincide; Go's lexer and formatter are compared with the model's `lex` and `indent_by_parens` on every string; non-trivial = every source; distinct = distinct strings",
+			"C15": "random trees over binary operators of every precedence level, unary !, named n-ary calls, if and bracket lists, rendered to infix with minimal parentheses (by precedence and left associativity) plus random redundant parentheses and spacing, a name that is both a constant of the configuration and a registered variable; infix expressions with repeated leaves EVALUATED against their prefix forms; Go's infix parse must equal Go's prefix parse of the prefix form; both are compared with the model's parsers; non-trivial = every tree; distinct = distinct renderings",
 		}[prop]
 		register(&PropDef{ID: prop, Rule: rule,
 			Assumptions: []string{"identifier characters are drawn from an alphabet whose unicode.IsLetter/IsNumber/IsSpace classification is compared with the model's tables in every run"},
